@@ -9,7 +9,11 @@
      store_ok d     : every stored cell is clean text, or a list of clean texts
      expected cs s  : (name, text) once per stored value of the visible store — store order, then list
                       order — then the default Content-Type when needed, then one Set-Cookie per cookie
-     enc1 (n, t)    : (n, utf8_enc_str t)            wire_safe v : all code points < 256 and clean v     *)
+     enc1 (n, t)    : (n, utf8_enc_str t)            wire_safe v : all code points < 256 and clean v
+     guarded_op (OSetCookie ..) additionally asks that set_cookie checks its options (F35) and that the
+                      fragment http.cookies renders for an option value that passed _hval is clean (external)
+     inv s          : store_ok (st_store s) and every cookie has a legal name, value quoted by _quote, clean fragments
+     emitted_safe s : the conclusion of C14_emitted_safe for state s                                          *)
 From Coq Require Import String Ascii.
 From Verif Require Import lib.Base lib.Str lib.Utf8 gen.Gen model.Cookie model.Headers
                           proofs.C14_proofs proofs.C14_emit.
@@ -25,7 +29,7 @@ Theorem C14_guarded_setters_reject :
   forall (s : rstate) (o : op),
     Exists refused (offered o) ->
     match o with
-    | OInit _ _ _ => exists e, snd (step s o) = Some e
+    | OInit _ _ _ | OSetCookie _ _ _ _ => exists e, snd (step s o) = Some e
     | _ => exists e, step s o = (s, Some e)
     end.
 Proof. exact step_rejects. Qed.
@@ -56,6 +60,30 @@ Theorem C14_emitted_safe :
              /\ wire_safe v /\ utf8_dec v = Some orig.
 Proof. exact C14_emitted_safe_lemma. Qed.
 Print Assumptions C14_emitted_safe.
+
+(* The same for a response AND its copy (BaseResponse.copy, as redirect() makes it),
+   after any interleaving of guarded operations on either object and of copy():
+   both stores hold only CR/LF/NUL-free text, both jars only legal names, quoted
+   values and clean option fragments; hence both header lists are wire-safe. *)
+Theorem C14_pair_invariant :
+  forall ps : list pop, Forall guarded_pop ps -> pinv (prun (init_state, None) ps).
+Proof. exact C14_pair_invariant_lemma. Qed.
+Print Assumptions C14_pair_invariant.
+
+Theorem C14_pair_emitted_safe :
+  forall ps : list pop, Forall guarded_pop ps ->
+  let st := prun (init_state, None) ps in
+  emitted_safe (fst st) /\ forall c, snd st = Some c -> emitted_safe c.
+Proof. exact C14_pair_emitted_safe_lemma. Qed.
+Print Assumptions C14_pair_emitted_safe.
+
+(* An operation on the copy leaves the original exactly as it was, and vice versa. *)
+Theorem C14_copy_independent :
+  forall (st : pstate) (on_copy : bool) (o : op),
+    let st' := fst (fst (pstep st (POn on_copy o))) in
+    if on_copy then fst st' = fst st else snd st' = snd st.
+Proof. exact copy_independent. Qed.
+Print Assumptions C14_copy_independent.
 
 (* For EVERY response state (guarded or not): when headerlist returns, it is
    exactly the transcoding of [expected]: multi-valued headers once per value, in
@@ -89,6 +117,20 @@ Theorem C14_F17_case_sensitive_variant_refuted :
     /\ In (L "content-length", L "5") l /\ In (L "Content-Length") (lookup_bad 304 Gen.bad_headers).
 Proof. exact F17_case_sensitive_variant_emits. Qed.
 Print Assumptions C14_F17_case_sensitive_variant_refuted.
+
+(* Record of defect F35 (repaired): while set_cookie did not check its options, a
+   CR LF in path= reached the Set-Cookie value. *)
+Theorem C14_F35_unchecked_cookie_option_refuted :
+  exists l v,
+    headerlist (run init_state
+                  [OSetCookie [97] [98] false
+                     [mkO (L "path") (Some (VAtom (AStr [47; 13; 10; 88]))) (L "Path=/" ++ [13; 10; 88])]])
+    = HLOk l /\ In (L "Set-Cookie", v) l /\ In 13 v /\ In 10 v.
+Proof.
+  eexists. eexists. split; [vm_compute; reflexivity|]. split; [right; left; reflexivity|].
+  split; vm_compute; tauto.
+Qed.
+Print Assumptions C14_F35_unchecked_cookie_option_refuted.
 
 (* Outside the statement, recorded: the two unchecked entry points do store CR LF. *)
 Theorem C14_store_invariant_unchecked_paths_refuted :
